@@ -854,6 +854,10 @@ bool BarnettSmartVTMF_dlog::OR_Verify
 		// check the size of $r_1$ and $r_2$
 		if ((mpz_cmpabs(r_1, q) >= 0L) || (mpz_cmpabs(r_2, q) >= 0L))
 			throw false;
+
+		// check the size of $c_1$ and $c_2$
+		if ((mpz_cmpabs(c_1, q) >= 0L) || (mpz_cmpabs(c_2, q) >= 0L))
+			throw false;
 		
 		// verify ($y_1 = g_1^\alpha \vee y_2 = g_2^\beta$) [CaS97]
 		mpz_powm(t_1, y_1, c_1, p);
